@@ -336,12 +336,16 @@ PROPS["C15"] = dict(
           "holds it, never held by two meters, always inside 1..1023), and so do tunnel-peer IDs and application IDs (a holder's ID is never in the free queue, "
           "two holders never share one, the queue never holds one twice); application-meter operations never touch the session pool nor the reverse, and a failed "
           "meter Write returns exactly the popped cells to the pool they came from; sendCreate / sendUpdate report success only if no Write of the request "
-          "failed (ALREADY_EXISTS excepted). T2: the same model must predict the real agent under injected failures: every (request, write position, "
+          "failed (ALREADY_EXISTS excepted). Counter cells at the plug-in's interface: the cells an establishment hands out are pairwise distinct, were free and "
+          "are no longer free; only sendCreate's counter loop takes cells, only an accepted sendDelete returns cells - exactly those of the deleted PDRs; along "
+          "every history the ledger 'free / left the pool and not yet returned' never has a cell on both sides nor twice on one (counters_inv). "
+          "T2: the same model must predict the real agent under injected failures: every (request, write position, "
           "failure kind) of three scenario families, plus random multi-fault runs, each followed by further sessions that would receive a wrongly recycled "
           "identifier; oracles on the observation: identifiers in installed entries are exclusive, pool occupancy read through the hook adds up "
           "(free + held = pool size per meter pool; free + held <= size for counters), the PFCP cause after a failed write is not 'accepted'.",
-    note="partial: counter cells are decided by correspondence + oracles (evaluated on model state and observation after every event), not by a theorem "
-         "(their owners are the PDRs of stored sessions); leaks (identifiers lost after a refused request) are not violations of this property and are not reported here. "
+    note="partial: that the counter cells which left the pool are the ctrIDs of the stored sessions' PDRs (the owners live in the handlers' state) is decided "
+         "by correspondence + oracles (evaluated on model state and observation after every event), not by a theorem - it is false of the code for a PDR created "
+         "by a modification (open finding C15-pdr-created-in-modification-has-no-counter); leaks (identifiers lost after a refused request) are not violations of this property and are not reported here. "
          "The removal part of a modification (Remove PDR/FAR/QER) issues best-effort writes whose failure is swallowed by design (resetMeters, "
          "removeGTPTunnelPeer); the 'failed write => rejected' theorem covers establishment and the create/update part of a modification.",
     rule="three scenario families of 8-11 requests over sessions sharing a gNB and an application filter; one fault-free run counts the Writes of every step; "
